@@ -396,6 +396,33 @@ CLAIMS["C13"] = dict(
               "independent specification; concrete replay on real HDF5",
     ref="3/C13")
 
+CLAIMS["C12"] = dict(
+    text="Real get_statistics / Statistics.get_feature, get_kde_scatter, "
+         "get_kde_contour, get_kde_spacing, _apply_scale, ignore_nan_inf, "
+         "kde_histogram / kde_gauss / kde_multivariate / kde_none, "
+         "bin_width_doane / bin_num_doane and get_quantile_levels run "
+         "symbolically; the numeric kernels underneath (spline, Gaussian "
+         "KDE, product-kernel KDE, skew, percentile, histogram2d, interpn, "
+         "log/sqrt) are uninterpreted functions with congruence.  Three "
+         "worlds per path (filtered dataset / other values on the excluded "
+         "events / dataset of the selected events only): z3 proves all "
+         "results equal (non-interference + restriction), every statistic "
+         "== its definition on the finite selected values, what reaches each "
+         "kernel (valid selected events in the chosen scale, bin centres, "
+         "default bins and bandwidths per axis), NaN at invalid positions, "
+         "and that get_quantile_levels keeps the interpolation grid finite "
+         "and strictly monotonic.",
+    note="NOT decided (floating-point library code, not encodable): that "
+         "the spline / Gaussian / product-kernel estimators and the "
+         "percentile itself compute the reference values; "
+         "_find_quantile_level's convergence. get_downsampled_scatter is "
+         "C16, filtered tsv export C02. Bounds: 3 (thorough 4) events.",
+    technique="symbolic execution of the real Python code objects with "
+              "uninterpreted kernels (manual Ackermann congruence), z3 "
+              "QF_UFLRA / nlsat; 2-safety (non-interference) formulation; "
+              "concrete replay on the real estimators",
+    ref="3/C12")
+
 NOT_APPLICABLE = {
 }
 
